@@ -878,6 +878,31 @@ func runC12(c *runCtx) error {
 		}
 	}
 
+	// part C3: many DISTINCT literal keys (sizes around powers of two: writes handed to the
+	// storage in chunks / buffers must still be exactly the stated ones)
+	c3sizes := []int{127, 128, 129, 256}
+	if deep {
+		c3sizes = []int{63, 64, 65, 127, 128, 129, 255, 256, 257, 512, 1024, 1025}
+	}
+	for _, n := range c3sizes {
+		for _, remove := range []bool{false, true} {
+			s := c12Stmt{remove: remove}
+			var prior [][2]string
+			for i := 0; i < n; i++ {
+				k := fmt.Sprintf("n%04d", i)
+				s.keys = append(s.keys, c12Const("'"+k+"'", "literal", k))
+				if !remove {
+					s.vals = append(s.vals, c12ValPool[[]int{0, 1, 9}[i%3]])
+				}
+				if i%3 != 1 {
+					prior = append(prior, [2]string{k, "old"})
+				}
+			}
+			prior = append(prior, [2]string{"zz", "last"}, [2]string{"a", "first"})
+			c12Run(e, s, newStore(prior), []int{1, 0}, 0, 0, []string{"n0000", fmt.Sprintf("n%04d", n-1), "zz"})
+		}
+	}
+
 	// part D: statement sequences against the model map (each statement is a case whose prior
 	// state is the store left by the previous ones; the direct verdict compares the store to
 	// the generator's model map after every statement)
